@@ -120,3 +120,67 @@ Fixpoint spec_attributions (cap : nat) (cs : list (N * param)) (evs : list event
   | Accept cid :: evs' => spec_attr cap cs cid :: spec_attributions cap cs evs'
   | Stream _ :: evs' => spec_attributions cap cs evs'
   end.
+
+(* ---------------------------------------------------------------- histories with carrier END events
+   turbotunnelMode returns after wg.Wait() (both loops of the carrier have finished) and does NOT touch
+   clientIDAddrMap: the end of a carrier -- any carrier, before or after a session of its ClientID is
+   established, with or without other carriers of that ClientID open -- leaves the map alone. *)
+Inductive hevent :=
+| HEv (e : event)
+| HEnd (k : nat).                    (* the k-th carrier of the history (0-based, in order of start) ends *)
+
+Definition hev_step (r : sring) (h : hevent) : sring :=
+  match h with HEv e => ev_step r e | HEnd _ => r end.
+
+Definition hstate_after (cap : nat) (pre : list hevent) : sring := fold_left hev_step pre (new addr ANil cap).
+
+Fixpoint conns_h (acc : sring -> N -> addr) (r : sring) (sess : list addr) (hevs : list hevent) : list (nat * addr) :=
+  match hevs with
+  | [] => []
+  | HEnd _ :: t => conns_h acc r sess t
+  | HEv (Carrier cid p) :: t => conns_h acc (carrier_step r cid p) sess t
+  | HEv (Accept cid) :: t => let a := acc r cid in (List.length sess, a) :: conns_h acc r (sess ++ [a]) t
+  | HEv (Stream k) :: t =>
+      match nth_error sess k with
+      | Some a => (k, a) :: conns_h acc r sess t
+      | None => conns_h acc r sess t
+      end
+  end.
+
+Definition run_conns_h (cap : nat) (hevs : list hevent) : list (nat * addr) :=
+  conns_h accept (new addr ANil cap) [] hevs.
+
+(* the history without its end events *)
+Fixpoint strip_ends (hevs : list hevent) : list event :=
+  match hevs with
+  | [] => []
+  | HEv e :: t => e :: strip_ends t
+  | HEnd _ :: t => strip_ends t
+  end.
+
+(* NOT the code: a carrier that ends clears the entry of its ClientID ("do not keep the address longer than
+   needed") when the entry still holds the address this carrier presented -- a comparison of ADDRESSES, which
+   cannot tell this carrier's entry from that of a more recent carrier of the same client.  [cs] = the carriers
+   started so far, in order.  Only used to show that the end-event theorem tells the two apart. *)
+Definition end_clear_step (r : sring) (cs : list (N * param)) (k : nat) : sring :=
+  match nth_error cs k with
+  | Some (cid, p) =>
+      match get addr ANil r cid with
+      | Some (AStr s) => if beq s (sanitise p) && negb (beq s []) then set addr ANil r cid (AStr []) else r
+      | _ => r
+      end
+  | None => r
+  end.
+
+Fixpoint conns_h_clear (r : sring) (cs : list (N * param)) (sess : list addr) (hevs : list hevent) : list (nat * addr) :=
+  match hevs with
+  | [] => []
+  | HEnd k :: t => conns_h_clear (end_clear_step r cs k) cs sess t
+  | HEv (Carrier cid p) :: t => conns_h_clear (carrier_step r cid p) (cs ++ [(cid, p)]) sess t
+  | HEv (Accept cid) :: t => let a := accept r cid in (List.length sess, a) :: conns_h_clear r cs (sess ++ [a]) t
+  | HEv (Stream k) :: t =>
+      match nth_error sess k with
+      | Some a => (k, a) :: conns_h_clear r cs sess t
+      | None => conns_h_clear r cs sess t
+      end
+  end.
